@@ -165,7 +165,20 @@ def bytePolls (step : LinkSt → ByteItem → LinkSt × Option Out) : LinkSt →
     | (st', none) => bytePolls step st' s
 
 def usartPolls := bytePolls usartStep
-def serialPolls := bytePolls serialStep
+
+/-- the serial-port receiver over a script, with script exhaustion read like the USART's (spin) -/
+def serialPollsRaw := bytePolls serialStep
+
+/-- On a serial port an exhausted script inside a link frame is not a spin: `read_exact` times out, the call
+returns a read error (the partial frame is lost) and the next call finds nothing. `.blocked` can only be the
+last entry of a raw trace. -/
+def serialEnd : List Out → List Out
+  | [] => []
+  | [.blocked] => [.emit .readErr, .nothing]
+  | o :: t => o :: serialEnd t
+
+/-- results of every `Serial::try_get_packet` call over a device script -/
+def serialPolls (st : LinkSt) (s : List ByteItem) : List Out := serialEnd (serialPollsRaw st s)
 
 /-! ## senders -/
 
